@@ -94,7 +94,7 @@ ASSUMPTIONS = [
     "after the first contradiction nothing more is judged on that device; the case continues on a freshly elaborated one",
     "the four history-based mechanism names are decided from the wire history only (abandoned transfer before / foreign ACK inside the failing transfer)",
 ]
-TIMEOUT = {"quick": 900, "thorough": 4 * 3600}
+TIMEOUT = {"quick": 3000, "thorough": 6 * 3600}      # generous: the machine may be heavily shared
 
 
 def build_device(descs, *, bulk_mps=8, fs60=False):
